@@ -7,6 +7,7 @@ CONSTANTS
   MaxFaults = 0
   MaxRecs = 5
   WithFin = FALSE
+  ForeignAct = FALSE
   Foreign = {"d1"}
   FixGC = TRUE
   MidEnv = FALSE
